@@ -417,6 +417,7 @@ func TestC15Concurrent(t *testing.T) {
 			cases[i] = gen.Example(int(hx.Seed())*100000 + r*G + i)
 		}
 		// concurrent phase first: the shared ID caches are cold for this round's ids
+		hC15.BeginLimit("TestC15", cases[0], 120*time.Second) // a round that never returns is a deadlock
 		got := make([]evSnap, G)
 		gerr := make([]string, G)
 		var wg sync.WaitGroup
@@ -442,6 +443,7 @@ func TestC15Concurrent(t *testing.T) {
 		}
 		close(start)
 		wg.Wait()
+		hC15.End()
 		want := make([]evSnap, G)
 		werr := make([]string, G)
 		for i, c := range cases {
